@@ -1154,8 +1154,8 @@ pub fn run(opts: &Opts) -> Option<(Stats, Vec<String>, String)> {
     };
 
     if prop == "C18" {
-        let max_n = if q { 40 } else { 320 };
-        let cases = ((if q { 20_000 } else { 100_000 }) as f64 * opts.scale) as u64;
+        let max_n = if q { 40 } else { 160 };
+        let cases = ((if q { 20_000 } else { 12_000 }) as f64 * opts.scale) as u64;
         // fixed hostile members first: layered 4x6 .. and K_n
         let rnd = par_for(opts.jobs, cases, 16, Some(deadline), |st, i, slot| {
             let mut rng = Rng::new(mix(seed, i));
@@ -1178,7 +1178,7 @@ pub fn run(opts: &Opts) -> Option<(Stats, Vec<String>, String)> {
         });
         total.merge(rnd);
         // second monitor: CPU-time growth along families (hook-free; covers work outside RankCalc)
-        let max_size = if q { 40 } else { 110 };
+        let max_size = if q { 40 } else { 70 };
         let reps: u64 = if q { 2 } else { 6 };
         let gr = par_for(opts.jobs.min(GROWTH_FAMILIES), GROWTH_FAMILIES as u64 * reps, 1, Some(deadline), |st, i, slot| {
             let fam = (i as usize) % GROWTH_FAMILIES;
